@@ -76,14 +76,15 @@ def run_book(case, bus, ex):
         if not takes_aux and not constant_aux:
             continue        # constant_aux is meaningless without aux: one representative is enough
         if takes_aux:
-            step = lambda u, a: jtu.tree_map(lambda x: (x * K + a["d"].astype(x.dtype)).astype(x.dtype), u)
-            aux_seq = [{"d": np.int64(i + 1)} for i in range(n)]          # distinct digits 1..n (mod 10 for the numeral)
+            # aux = {"d": scalar digit, "v": vector with a leading axis of length 3 (distinct entries: a stacking mix-up of a constant aux would show)}
+            step = lambda u, a: jtu.tree_map(lambda x: (x * K + a["d"].astype(x.dtype) + jnp.sum(a["v"] * jnp.asarray([1, 0, 0], dtype=a["v"].dtype)).astype(x.dtype)
+                                                        + 0 * jnp.sum(a["v"]).astype(x.dtype)).astype(x.dtype), u)
             if constant_aux:
-                aux_arg = {"d": jnp.asarray(7, dtype=jnp.int64)}
-                aux_model = [{"d": np.int64(7)}] * n
+                aux_arg = {"d": jnp.asarray(3, dtype=jnp.int64), "v": jnp.asarray([4, 0, 1], dtype=jnp.int64)}
+                aux_model = [{"d": np.int64(3), "v": np.asarray([4, 0, 1], dtype=np.int64)}] * n
             else:
-                aux_arg = {"d": jnp.asarray([(i + 1) % 10 for i in range(n)], dtype=jnp.int64)}
-                aux_model = [{"d": np.int64((i + 1) % 10)} for i in range(n)]
+                aux_arg = {"d": jnp.asarray([(i + 1) % 5 for i in range(n)], dtype=jnp.int64), "v": jnp.asarray([[(2 * i + 1) % 5, 9, 9] for i in range(n)], dtype=jnp.int64).reshape(n, 3)}
+                aux_model = [{"d": np.int64((i + 1) % 5), "v": np.asarray([(2 * i + 1) % 5, 9, 9], dtype=np.int64)} for i in range(n)]
         else:
             step = lambda u: jtu.tree_map(lambda x: (x * K + 1).astype(x.dtype), u)
             aux_arg, aux_model = None, None
@@ -91,7 +92,7 @@ def run_book(case, bus, ex):
         info = dict(pytree=shape, n=n, include_init=include_init, takes_aux=takes_aux, constant_aux=constant_aux)
         # naive model (numpy ints, wraps like the dtype)
         def step_np(u, a=None):
-            return jtu.tree_map(lambda x: (x * K + (1 if a is None else a["d"])).astype(x.dtype), u)
+            return jtu.tree_map(lambda x: (x * K + (1 if a is None else a["d"] + a["v"][0])).astype(x.dtype), u)
         model = loops.rollout_model(step_np, np_tree(u0), n, include_init=include_init, auxs=aux_model)
         tap = taps.CallTap(step, "book", bus)
         try:
@@ -119,9 +120,9 @@ def run_book(case, bus, ex):
                         ok, msg = False, f"call {i} did not receive the output of call {i - 1}"
                         break
                     if takes_aux:
-                        got_aux = int(r["inputs"][nleaf])
-                        if got_aux != int(aux_model[i]["d"]):
-                            ok, msg = False, f"call {i} consumed aux {got_aux}, expected {int(aux_model[i]['d'])}"
+                        got_d, got_v = int(r["inputs"][nleaf]), np.asarray(r["inputs"][nleaf + 1])
+                        if got_d != int(aux_model[i]["d"]) or not np.array_equal(got_v, aux_model[i]["v"]):
+                            ok, msg = False, f"call {i} consumed aux d={got_d} v={got_v.tolist()}, expected d={int(aux_model[i]['d'])} v={aux_model[i]['v'].tolist()}"
                             break
                     prev = outs
             bus.judge("executions", 0.0 if ok else 1.0, 0.5, sig + (which,), traced=True, sample=dict(info, program=which, executions=len(lg)),
@@ -212,9 +213,39 @@ def run_repeated(case, bus, ex):
                 bus.ok("repeated_stepper", sig + ("shape",), nontrivial=False)
 
 
+def run_forced_batch(case, bus, ex, rng):
+    """rollout(vmap(ForcedStepper), constant aux with a batch axis) and multi-channel forcing: each member sees only its own forcing, at every step."""
+    import jax, jax.numpy as jnp
+    for D, name in ((1, "stepper.Burgers"), (2, "stepper.Burgers")):
+        N = {1: 12, 2: 6}[D]
+        it = zoo.make_intent(rng, name, D, N, variant=0, order=2)
+        st = zoo.build(ex, it)
+        fs = ex.ForcedStepper(st)
+        C, B, n = zoo.channels(it), 3, 4
+        U = np.stack([G.random_state(rng, "white", C, D, N, amp=0.3) for _ in range(B)])
+        F = np.stack([G.random_state(rng, "white", C, D, N, amp=0.5) for _ in range(B)])
+        ref = []
+        for b in range(B):
+            v, tr = jnp.asarray(U[b]), []
+            for _ in range(n):
+                v = st(v + it["dt"] * jnp.asarray(F[b]))
+                tr.append(np.asarray(v))
+            ref.append(np.stack(tr))
+        ref = np.stack(ref)                                  # (B, n, ...)
+        a = np.swapaxes(np.asarray(ex.rollout(jax.vmap(fs), n, takes_aux=True, constant_aux=True)(jnp.asarray(U), jnp.asarray(F))), 0, 1)
+        b_ = np.asarray(jax.vmap(ex.rollout(fs, n, takes_aux=True, constant_aux=True))(jnp.asarray(U), jnp.asarray(F)))
+        c_ = np.asarray(ex.repeat(jax.vmap(fs), n, takes_aux=True, constant_aux=True)(jnp.asarray(U), jnp.asarray(F)))
+        S = float(np.max(np.abs(ref))) + 1e-300
+        for label, got, r in (("rollout(vmap(forced))", a, ref), ("vmap(rollout(forced))", b_, ref), ("repeat(vmap(forced))", c_, ref[:, -1])):
+            ok = got.shape == r.shape
+            bus.judge("forced_in_rollout", float(np.max(np.abs(got - r))) / S if ok else np.inf, 1e-11, (D, C, label), sample=dict(intent=it, program=label, batch=B, n=n),
+                      witness=dict(intent=it, program=label, shapes=[list(got.shape), list(r.shape)]))
+
+
 def run_forced(case, bus, ex):
     import jax, jax.numpy as jnp
     rng = env.rng_for(*case["rs"])
+    run_forced_batch(case, bus, ex, rng)
     it = zoo.make_intent(rng, "stepper.Burgers", 1, 14, order=int(rng.integers(1, 5)))
     st = zoo.build(ex, it)
     fs = ex.ForcedStepper(st)
